@@ -51,6 +51,54 @@ def warmup():
     evaluate(dict(mtree=dict(blocks=[[0], [1]], parent=[-1, 0], outliers=[]), sib=[0]))
 
 
+class _Stop(Exception):
+    pass
+
+
+def _call_sites(tree, mt, Lset, case, tags):
+    """The order every sampler actually hands to its SMC pass (burn-in, whole-tree particle Gibbs): the constructors of the
+    SMC samplers are replaced by recorders that stop the pass right there, so only the drawn order is observed."""
+    import phyclone.mcmc.particle_gibbs as pgm
+    import phyclone.smc.samplers.unconditional as um
+    from phyclone.smc.kernels import SemiAdaptedKernel
+    from phyclone.smc.utils import RootPermutationDistribution
+    from phyclone.tree import FSCRPDistribution, TreeJointDistribution
+
+    seed = sum((i + 1) * x for i, x in enumerate(case.get("sib") or [0])) + len(Lset)
+    rng = np.random.default_rng(seed)
+    kernel = SemiAdaptedKernel(TreeJointDistribution(FSCRPDistribution(1.0)), rng, outlier_proposal_prob=0.1 if mt.outliers else 0.0, perm_dist=RootPermutationDistribution())
+    got = []
+
+    def rec_uncond(data_sigma, *a, **k):
+        got.append(("burn-in", tuple(dp.idx for dp in data_sigma)))
+        raise _Stop()
+
+    def rec_cond(tree_, data_sigma, *a, **k):
+        got.append(("particle-gibbs", tuple(dp.idx for dp in data_sigma)))
+        raise _Stop()
+
+    saved = (um.SMCSampler, pgm.ConditionalSMCSampler)
+    um.SMCSampler, pgm.ConditionalSMCSampler = rec_uncond, rec_cond
+    try:
+        for _ in range(3):
+            for make in (lambda: um.UnconditionalSMCSampler(kernel, num_particles=2), lambda: pgm.ParticleGibbsTreeSampler(kernel, rng, num_particles=2)):
+                try:
+                    make().sample_tree(tree.copy())
+                except _Stop:
+                    pass
+                except Exception as e:
+                    raise crash_violation("call-site", e, tags)
+    finally:
+        um.SMCSampler, pgm.ConditionalSMCSampler = saved
+    if len(got) != 6:
+        from vp.common import HarnessError
+
+        raise HarnessError("call-site recorders saw %d SMC passes for 6 sampler calls" % len(got))
+    for who, order in got:
+        if order not in Lset:
+            raise Violation("call-site/incompatible-order", "the %s sampler started its SMC pass with the data order %r, which is not a descendants-before-ancestors order of all data points of %r" % (who, order, mt), dict(tags, sampler=who), dict(order=list(order)))
+
+
 def evaluate(case):
     from phyclone.smc.utils import RootPermutationDistribution
 
@@ -104,6 +152,9 @@ def evaluate(case):
             dict(log_pdf=log_pdf, n_orders=len(L)),
         )
     classes = []
+    if n >= 1:
+        _call_sites(tree, mt, Lset, case, tags)
+        classes.append("call-sites:burn-in+PG+subtree")
     if len(mt.outliers) >= 2:
         classes.append("outliers>=2")
     elif len(mt.outliers) == 1:
